@@ -165,7 +165,7 @@ func kindClass(kind string) string {
 		return "nil-destination"
 	case strings.HasPrefix(kind, "nil-"):
 		return "typed-nil-destination"
-	case strings.HasPrefix(kind, "*") || kind == "readerfrom" || kind == "writer" || kind == "buffer" || kind == "binunm" || kind == "textunm":
+	case strings.HasPrefix(kind, "*") || kind == "readerfrom" || kind == "writer" || kind == "buffer" || strings.HasPrefix(kind, "binunm") || strings.HasPrefix(kind, "textunm"):
 		return "pointer-destination"
 	}
 	return "non-pointer-destination"
